@@ -82,8 +82,14 @@ Inductive sub := SInit                 (* per-entry future not polled yet; owns 
 
 (* what an agent does once a sequence of guard drops is finished *)
 Inductive after :=
-| ADone (o : obs)
+| ADoneUnit | ADoneErr | ADonePanicked
 | AReenter (sh : shape) (k : key) (lim : nat).
+
+Definition after_obs (af : after) : obs :=
+  match af with
+  | ADoneUnit => OUnit | ADoneErr => OErr | ADonePanicked => OPanicked
+  | AReenter _ _ _ => ONothing
+  end.
 
 Inductive pc :=
 | PEnter (sh : shape) (k : key) (lim : option nat)       (* before the evict/lookup critical section *)
@@ -408,8 +414,8 @@ Definition do_drops (c : cfg) (s : state) (a : aid) (gs : list gid) (af : after)
       | g' :: _ => ROk (set_pc (begin_unlock c s1 g') a (PDrops rest af)) ONothing
       | [] =>
         match af with
-        | ADone o => ROk (fin s1 a) o
         | AReenter sh k lim => ROk (set_pc s1 a (PEnter sh k (Some lim))) ONothing
+        | _ => ROk (fin s1 a) (after_obs af)
         end
       end
     end
@@ -671,7 +677,7 @@ Definition do_start (c : cfg) (s : state) (a : aid) (cl : call) : result :=
   | CLock sh k lim => if lim_ok lim then ROk (set_pc s a (PEnter sh k lim)) ONothing else RInvalid
   | CDrop g =>
       if guard_live s g
-      then ROk (set_pc (begin_unlock c s g) a (PDrops [g] (ADone OUnit))) ONothing
+      then ROk (set_pc (begin_unlock c s g) a (PDrops [g] ADoneUnit)) ONothing
       else RInvalid
   | CExpire d =>
       if c_lru c && Z.leb 0 d
@@ -706,8 +712,8 @@ Definition do_cbreturn (c : cfg) (s : state) (a : aid) (r : cbres) (hold : bool)
   | Some (PInCb sh k lim offered) =>
     let af := match r with
               | CbOk => AReenter sh k lim
-              | CbErr => ADone OErr
-              | CbPanic => ADone OPanicked
+              | CbErr => ADoneErr
+              | CbPanic => ADonePanicked
               end in
     if hold then
       match offered with
@@ -719,8 +725,8 @@ Definition do_cbreturn (c : cfg) (s : state) (a : aid) (r : cbres) (hold : bool)
       end
     else
       match af with
-      | ADone o => ROk (fin s a) o
       | AReenter sh k lim => ROk (set_pc s a (PEnter sh k (Some lim))) ONothing
+      | _ => ROk (fin s a) (after_obs af)
       end
   | _ => RInvalid
   end.
